@@ -349,6 +349,8 @@ func scenCrash(seed uint64, thorough bool) (out scenOut) {
 						fail = what + ": " + f2
 					}
 				}
+				// a closed DB stays reachable for about a second (mpoolDrain): do not let it pin the image's bytes
+				img.Discard()
 				mu.Lock()
 				out.stats["crash_images"]++
 				if fail != "" && out.fail == "" {
